@@ -49,6 +49,8 @@ def _build(case):
     if case["dup"] and M >= 2:
         # duplicate volumes (ties in the sort)
         f[:, 1] = f[:, 0]
+        dead = f.sum(axis=1) == 0
+        f[dead, 0] = f[dead, 1] = 0.5
         f /= f.sum(axis=1, keepdims=True)
     return A, f
 
